@@ -1,3 +1,188 @@
 import PysphVerif.Driver.Common
-/-! Line-protocol driver for C02 (stub: not built yet). -/
-def main : IO Unit := PysphVerif.Driver.loopPure (fun _ => "bad-op")
+import PysphVerif.Model.Codegen
+import PysphVerif.Gen.Precomp
+/-!
+Line protocol for C02 (names are identifiers, lists comma separated, `_` empty).
+
+* `sort keys=<names> [T=real | E=<name>:<sym>;<sym>… …]`
+    → `ok <names>` | `keyerror` | `diverges`          (`sort_precomputed`)
+* `setup args=<names> [T=real | E=…]`
+    → `closure=<sorted names> <sort result>`           (`Group._setup_precomputed`)
+* `wiring P name=<pa> props=<p>:<Class>:<ctype>;… … Q id=<n> name=<Cls> dest=<pa>
+    sources=<names> init=<args|-> ipair=… loop=… lall=… post=… …`
+    → canonical text of pointer set-up, declarations and scratch vectors
+* `evalblock which=code|doc|conv sym=<S> d=<p>:<f>;… s=<p>:<f>;… st=<S>:<k>:<f>;…`
+    → the values the block leaves in `S` (three components for vectors), at
+      Float, with the stand-in functions documented in `fnStub`/`fnOutStub`
+* `tables` → names of codeTable / docTable / convTable / defaults
+Anything else answers `bad-op`.
+-/
+namespace PysphVerif.Driver.C02
+open PysphVerif.Wire PysphVerif.Codegen
+
+def names? (s : String) : Option (List String) :=
+  if s = "_" then some [] else some (s.splitOn ",")
+
+def semi (s : String) : List String :=
+  if s = "_" then [] else s.splitOn ";"
+
+/-- `E=name:sym;sym` -/
+def parseEntry (tok : String) : Option (String × List String) :=
+  match tok.splitOn ":" with
+  | [n, syms] => some (n, semi syms)
+  | _ => none
+
+/-- the table of a line: `T=real` or the `E=` tokens -/
+def parseTable (toks : List String) : Option (Table String) :=
+  if toks.contains "T=real" then some PysphVerif.Gen.Precomp.symbolsTable
+  else (toks.filter (·.startsWith "E=")).mapM (fun t => parseEntry (t.drop 2).toString)
+
+def showSort : SortRes String → String
+  | .keyError => "keyerror"
+  | .diverges => "diverges"
+  | .ok out => "ok " ++ showList id out
+
+def showAssign (a : Assign) : String :=
+  a.lhs ++ "<" ++ (match a.side with | .dst => "dst." | .src => "src.") ++ a.prop
+
+def showSrcBlock (b : SrcBlock) : String :=
+  "S " ++ b.source ++ " assigns=" ++ showList showAssign b.assigns ++
+  " eqs=" ++ showList (·.name) b.eqs ++ " precomp=[" ++ showSort b.precomp ++ "]"
+
+def showDestBlock (b : DestBlock) : String :=
+  "D " ++ b.dest ++ " assigns=" ++ showList showAssign b.assigns ++
+  " nosrc=" ++ showList (·.name) b.noSrc ++ " all=" ++ showList (·.name) b.allEqs ++
+  " " ++ " ".intercalate (b.srcs.map showSrcBlock)
+
+def optArgs (s : String) : Option (Option (List String)) :=
+  if s = "-" then some none else (names? s).map some
+
+def parseEqn (toks : List String) : Option Eqn := do
+  let kv := kvs toks
+  let uid ← (lookup kv "id") >>= parseNat?
+  let name ← lookup kv "name"
+  let dest ← lookup kv "dest"
+  let sources ← (lookup kv "sources") >>= names?
+  let i ← (lookup kv "init") >>= optArgs
+  let ip ← (lookup kv "ipair") >>= optArgs
+  let l ← (lookup kv "loop") >>= optArgs
+  let la ← (lookup kv "lall") >>= optArgs
+  let p ← (lookup kv "post") >>= optArgs
+  pure { uid := uid, name := name, dest := dest, sources := sources, mInit := i, mInitPair := ip,
+         mLoop := l, mLoopAll := la, mPostLoop := p }
+
+def parseProp (s : String) : Option (String × String × String) :=
+  match s.splitOn ":" with
+  | [p, cls, cty] => some (p, cls, cty.replace "~" " ")
+  | _ => none
+
+def parsePArr (toks : List String) : Option PArr := do
+  let kv := kvs toks
+  let name ← lookup kv "name"
+  let props ← (semi (← lookup kv "props")).mapM parseProp
+  pure { name := name, props := props }
+
+/-- split the token list at the markers `P` and `Q`; returns (kind, tokens) -/
+def groups (toks : List String) : List (String × List String) :=
+  let r := toks.foldl (fun (acc : List (String × List String)) t =>
+    if t = "P" ∨ t = "Q" then (t, []) :: acc else
+    match acc with
+    | [] => []
+    | (k, g) :: gs => (k, t :: g) :: gs) []
+  r.reverse.map (fun g => (g.1, g.2.reverse))
+
+def handleWiring (toks : List String) : String :=
+  let gs := groups toks
+  match (gs.filter (·.1 = "P")).mapM (fun g => parsePArr g.2),
+        (gs.filter (·.1 = "Q")).mapM (fun g => parseEqn g.2) with
+  | some pas, some eqs =>
+    let t := PysphVerif.Gen.Precomp.symbolsTable
+    let w := wiring t eqs
+    let decls := allArrayDecls t pas eqs
+    let scr := scratchDecls t PysphVerif.Gen.Precomp.defaults eqs
+    " | ".intercalate (w.map showDestBlock) ++
+    " | decl " ++ showList (fun d => d.1 ++ ":" ++ d.2.replace " " "~") decls ++
+    " | scratch " ++ showList (fun d => d.1 ++ ":" ++ toString d.2) scr
+  | _, _ => "bad-op"
+
+/-! stand-in functions for block evaluation (mirrored by the harness) -/
+
+instance : NatCast Float := ⟨Nat.toFloat⟩
+
+def fnSeed (f : String) : Float :=
+  if f = "KERNEL" then 1.0 else if f = "DWDQ" then 2.0 else if f = "GRADH" then 3.0
+  else if f = "GRADIENT" then 4.0 else 7.0
+
+/-- `sqrt` is the IEEE square root; any other `f`: seed + Σ (i+2)·argᵢ, left to right -/
+def fnStub (f : String) (args : List Float) : Float :=
+  if f = "sqrt" then (args.headD 0.0).sqrt else
+  (args.foldl (fun (acc : Float × Float) a => (acc.1 + acc.2 * a, acc.2 + 1.0))
+    (fnSeed f, 2.0)).1
+
+def fnOutStub (f : String) (args : List Float) (k : Nat) : Float :=
+  fnStub f args * (k.toFloat + 2.0) + k.toFloat
+
+def parseKF (s : String) : Option (String × Float) :=
+  match s.splitOn ":" with
+  | [p, v] => (parseFloatBits? v).map (fun x => (p, x))
+  | _ => none
+
+def parseSKF (s : String) : Option (String × Nat × Float) :=
+  match s.splitOn ":" with
+  | [p, k, v] => do
+      let k ← parseNat? k
+      let x ← parseFloatBits? v
+      pure (p, k, x)
+  | _ => none
+
+def handleEval (toks : List String) : String :=
+  let kv := kvs toks
+  match lookup kv "which", lookup kv "sym", (lookup kv "d").map semi, (lookup kv "s").map semi,
+        (lookup kv "st").map semi with
+  | some which, some sym, some d, some s, some st =>
+    match d.mapM parseKF, s.mapM parseKF, st.mapM parseSKF with
+    | some dl, some sl, some stl =>
+      let tab :=
+        if which = "code" then some PysphVerif.Gen.Precomp.codeTable
+        else if which = "doc" then some PysphVerif.Gen.Precomp.docTable
+        else if which = "conv" then some PysphVerif.Gen.Precomp.convTable
+        else none
+      match tab.bind (fun t => t.lookup sym) with
+      | none => "bad-op"
+      | some blk =>
+        let look (l : List (String × Float)) (p : String) : Float :=
+          ((l.find? (·.1 = p)).map (·.2)).getD (0.0 / 0.0)
+        let env : Env Float := { d := look dl, s := look sl, fn := fnStub, fnOut := fnOutStub }
+        let st0 : Store Float := fun n k =>
+          ((stl.find? (fun e => e.1 = n ∧ e.2.1 = k)).map (·.2.2)).getD (0.0 / 0.0)
+        let st1 := evalBlock env st0 blk
+        let n := ((PysphVerif.Gen.Precomp.defaults.find? (·.1 = sym)).map (·.2)).getD 0
+        if n = 0 then showFloatBits (st1 sym 0)
+        else showList showFloatBits ((List.range n).map (st1 sym))
+    | _, _, _ => "bad-op"
+  | _, _, _, _, _ => "bad-op"
+
+def handle (line : String) : String :=
+  match tokens line with
+  | "sort" :: rest =>
+    (match (lookup (kvs rest) "keys") >>= names?, parseTable rest with
+     | some keys, some t => showSort (sortPrecomputed strLe t keys)
+     | _, _ => "bad-op")
+  | "setup" :: rest =>
+    (match (lookup (kvs rest) "args") >>= names?, parseTable rest with
+     | some args, some t =>
+       "closure=" ++ showList id (sortDedup (closure t args)) ++ " " ++
+         showSort (setupPrecomputed strLe t args)
+     | _, _ => "bad-op")
+  | "wiring" :: rest => handleWiring rest
+  | "evalblock" :: rest => handleEval rest
+  | ["tables"] =>
+    let ks (t : List (String × Block)) := showList id (t.map (·.1))
+    "code=" ++ ks PysphVerif.Gen.Precomp.codeTable ++ " doc=" ++ ks PysphVerif.Gen.Precomp.docTable ++
+    " conv=" ++ ks PysphVerif.Gen.Precomp.convTable ++ " defaults=" ++
+    showList (fun d => d.1 ++ ":" ++ toString d.2) PysphVerif.Gen.Precomp.defaults
+  | _ => "bad-op"
+
+end PysphVerif.Driver.C02
+
+def main : IO Unit := PysphVerif.Driver.loopPure PysphVerif.Driver.C02.handle
